@@ -93,6 +93,26 @@ CHECKS = {
         "the (request, subset) lattice instead of taking the full product.",
         "DESIGN.md 3/C09",
     ),
+    "C04": (
+        "model_checking",
+        "exhaustive enumeration of the sow-configuration lattice plus explicit-state BFS over grow histories on the real code, with real-pool and real-process conformance runs",
+        "Layer 1 enumerates N = 1..40 settings (grids with non-alphabetical "
+        "argument names, case lists in tuple and dict spelling, cases x "
+        "sub-grid) x every batchsize / num_batches request x shuffle given to "
+        "the constructor or the sow call x grow order x grow entry point x "
+        "reload pattern, and compares the reaped result with the direct run "
+        "leaf by leaf. Layer 2 is a BFS to fix-point over histories of grow, "
+        "grow through a fresh Crop, Crop.grow(subset), grow_missing on crops of "
+        "<= 5 batches (all permutations, partitions and repetitions of batch ids "
+        "are paths of that graph) with the reap compared in every complete "
+        "state. Parallel growing is run on the real loky pool with a function "
+        "whose first setting is slowest, and a seed-chosen subset is re-run with "
+        "every step in its own python process.",
+        "Beyond N=8 the secondary dimensions rotate instead of forming the full "
+        "product; raw tuples are compared by grid position accepting given or "
+        "name-sorted axis order.",
+        "DESIGN.md 3/C04",
+    ),
 }
 
 NOT_BUILT = "check not built yet in this session (design in DESIGN.md section 3)"
